@@ -1,3 +1,4 @@
 pub mod bulkhead;
 pub mod ratelimiter;
 pub mod circuitbreaker;
+pub mod budget;
